@@ -81,6 +81,26 @@ def u1_lemmas(tier, ndjson=(0, 1), havoc=(0, 1)):
                             desc="as U1.parseMessage with the index limit scaled to 2, so that 3-token messages with gaps from {1,5,131} (up to 5 blocks) "
                                  "exercise the hand-over of an index buffer that ends on a non-markup index (strip, restore, position bookkeeping)",
                             bound="3 tokens, message <= 263 bytes; index limit scaled 1408 -> 2 (indexSize 1536 -> 130)", expect_reach=["U1.returned"]))
+        if 1 in havoc and (tier != "quick" or nd == 0):
+            ls.append(Lemma("U1.parseMessage.K3.%s.havoc.limit2" % ("ndjson" if nd else "json"), "verifHarness_U1_ParseMessage", FU1,
+                            splits=[{"K": 1, "ndjson": nd, "havoc": 1, "copy": 1, "wide": 1}], split_depth="auto", intr=Stage2SummIntrinsics,
+                            scale={"indexSize": "130"},
+                            desc="as U1.parseMessage.*.fresh.limit2 with every reusable field of the ParsedJson havoc'd: several index buffers are "
+                                 "pending when stage 2 fails early, and the channel must be empty again on every exit for the next call",
+                            bound="3 tokens, message <= 263 bytes; index limit scaled 1408 -> 2 (indexSize 1536 -> 130)", expect_reach=["U1.returned"]))
+    # the asynchronous branch of parseMessage (messages above the 8 KiB threshold, here scaled to 16 bytes): stage-2 goroutine,
+    # its error/drain logic and the final verdict, under the sequential schedule
+    for nd in ndjson:
+        if 0 in havoc:
+            ls.append(Lemma("U1.parseMessage.K3.%s.fresh.limit2.async" % ("ndjson" if nd else "json"), "verifHarness_U1_ParseMessage", FU1,
+                            splits=[{"K": 1, "ndjson": nd, "havoc": 0, "copy": 1, "wide": 1}], split_depth="auto", intr=Stage2SummIntrinsics,
+                            scale={"indexSize": "130", "lit:8 << 10": "16"},
+                            desc="as U1.parseMessage.*.limit2 with the sync/async threshold scaled from 8 KiB to 16 bytes: every message longer than that "
+                                 "takes the concurrent branch (stage-2 goroutine, 'keep consuming' drain, error hand-over through the named result, "
+                                 "wg.Wait); executed under the sequential schedule (stage 1 to its end, then the goroutine); every other "
+                                 "interleaving gives the same outcome by Q1 (C07)",
+                            bound="3 tokens, message <= 263 bytes; index limit 1408 -> 2; async threshold 8192 -> 16 bytes; one schedule",
+                            expect_reach=["U1.returned"]))
     return ls
 
 
